@@ -325,7 +325,51 @@ pub fn gen_log(rng: &mut Rng, tmax: i64, ignore_unknown: bool) -> (Vec<u8>, Stri
 
 // ------------------------------------------------------------------ mutation / corruption
 
+/// Numerals that a wrapping accumulator would map to a small value: `m * 2^bits ± small`,
+/// either sign, 20..45 digits (the "no wrap-around" clause of C06).
+pub fn wrap_class_numeral(rng: &mut Rng, big_only: bool) -> Vec<u8> {
+    // decimal multiplication of a big number held as digits
+    fn mul_small(d: &mut Vec<u8>, m: u32) {
+        let mut carry = 0u32;
+        for x in d.iter_mut().rev() {
+            let v = (*x as u32) * m + carry;
+            *x = (v % 10) as u8;
+            carry = v / 10;
+        }
+        while carry > 0 {
+            d.insert(0, (carry % 10) as u8);
+            carry /= 10;
+        }
+    }
+    fn add_small(d: &mut Vec<u8>, a: u32) {
+        let mut carry = a;
+        for x in d.iter_mut().rev() {
+            let v = *x as u32 + carry;
+            *x = (v % 10) as u8;
+            carry = v / 10;
+            if carry == 0 { break; }
+        }
+        while carry > 0 {
+            d.insert(0, (carry % 10) as u8);
+            carry /= 10;
+        }
+    }
+    let bits = if big_only { *rng.pick(&[64u32, 64, 128]) } else { *rng.pick(&[8u32, 16, 32, 63, 64, 64, 64, 128]) };
+    let mut d = vec![1u8];
+    for _ in 0..bits { mul_small(&mut d, 2); }
+    mul_small(&mut d, rng.range(1, 40) as u32);
+    if rng.chance(1, 3) { mul_small(&mut d, 10); }
+    add_small(&mut d, rng.below(9) as u32);
+    let mut s: Vec<u8> = vec![];
+    if rng.chance(1, 2) { s.push(b'-'); }
+    s.extend(d.iter().map(|x| b'0' + x));
+    s
+}
+
 fn extreme_numeral(rng: &mut Rng) -> Vec<u8> {
+    if rng.chance(1, 3) {
+        return wrap_class_numeral(rng, false);
+    }
     match rng.below(7) {
         0 => b"18446744073709551615".to_vec(),
         1 => b"18446744073709551616".to_vec(),
@@ -407,14 +451,17 @@ pub fn gen_case(rng: &mut Rng, opt: &str, _thorough: bool) -> String {
             // a plain rendering (one statement per line, single spaces) with one number token replaced
             let mut doc = gen_doc(rng, fmt, tmax, false);
             if doc.clauses.is_empty() { doc.clauses.push((0, vec![1])); }
-            let r = render(rng, &doc, true);
+            // half of the time the full layout grammar (clauses split over lines, junk, CRLF …)
+            let plain = rng.chance(1, 2);
+            let r = render(rng, &doc, plain);
             let cands: Vec<&(usize, usize, usize, TokKind)> = r.tokens.iter().collect();
             let &(l, c, n, kind) = *rng.pick(&cands);
             // byte offset of the token
             let mut off = 0; let mut line = 1;
             while line < l { if r.bytes[off] == b'\n' { line += 1; } off += 1; }
             off += c - 1;
-            let repl: Vec<u8> = match (kind, rng.below(3)) {
+            let repl: Vec<u8> = match (kind, rng.below(4)) {
+                (_, 3) => wrap_class_numeral(rng, true),
                 (TokKind::Lit, 0) => {
                     // out of range for the literal type / the declared variable count
                     let lim = match doc.header { Some((v, _, _)) if v != 0 => v as i128, _ => tmax as i128 };
